@@ -271,6 +271,13 @@ def main():
             seen_labels.add(key)
             st2, fails, out = native_replay(hr["spec"]["pkg"], name, vpath)
             confirmed = (v["kind"] == "assert" and v["label"] in fails) or (v["kind"] == "panic" and st2 == "panic")
+            if not confirmed and st2 in ("fail", "panic") and fails:
+                # the native run violates the property on this input, through another assertion of the
+                # same harness than the one the solver picked: still a reproduced violation
+                v = dict(v)
+                v["info"] = (v.get("info") or []) + ["solver label: " + v["label"], "native failures: " + "; ".join(fails[:5])]
+                v["label"] = fails[0]
+                confirmed = True
             if not confirmed:
                 disagreements.append("%s: model for '%s' did not reproduce natively (%s %s): encoding disagreement, vector %s" % (name, v["label"], st2, fails, vpath))
                 continue
